@@ -184,7 +184,7 @@ fn generate(rng: &mut Rng) -> C16Sc {
     C16Sc {
         net: NetScenario {
             seed: rng.next_u64(),
-            cfg: NetCfg { secret: None, expiry: None, max_frame: None, timeout_ns: secs(*rng.pick(&[30u64, 120, 600])), proxy, limiter, use_start: false, agones: false },
+            cfg: NetCfg { secret: None, expiry: None, max_frame: None, timeout_ns: secs(*rng.pick(&[30u64, 120, 600])), proxy, limiter, use_start: false, agones: false, secret_source: None },
             wall: Default::default(),
             services,
             clients,
